@@ -206,7 +206,7 @@ def judgeSteps : Nat → JSt → List PStep → List Obs → Option String
             (none, { j with prev := o.disk, failed := j.failed ++ fl })
       | .start _ =>
         if o.out == "ok" then
-          (startClause j.prev o.disk, { j with prev := o.disk, boot := o.disk, succ := [] })
+          (startClause j.prev o.disk, { j with prev := o.disk, boot := o.disk, succ := [], failed := [] })
         else (bootKept j.prev o.disk, { j with prev := o.disk })
     match verdict with
     | (some m, _) => some s!"{m.replace " path=" s!" step={i} path="}"
